@@ -288,6 +288,9 @@ inductive Slot
   | subs (b : Blk) (f : String) (typ : String) (cnt : Option String) (size : Option Nat)
   -- an optional integer: on the wire iff non-zero (`wc`: the word count under which Unmarshal reads it)
   | opt (b : Blk) (w : Nat) (e : End) (f : String) (wc : Option Nat)
+  -- an optional array of integers: on the wire iff some element is non-zero (`n`: how many elements Unmarshal reads,
+  -- 0 on the marshal side, which does not say; `wc`: the word count under which Unmarshal reads them)
+  | optInts (b : Blk) (w : Nat) (e : End) (f : String) (n : Nat) (wc : Option Nat)
   deriving DecidableEq, Repr, Inhabited
 
 def layoutM : List MStmt → Option (List Slot)
@@ -318,7 +321,7 @@ def layoutU : List UStmt → Option (List Slot)
   | _ :: _ => none
 
 def Slot.blk : Slot → Blk
-  | .int b .. | .u8 b .. | .bytes b .. | .arr b .. | .sub b .. | .ints b .. | .subs b .. | .opt b .. => b
+  | .int b .. | .u8 b .. | .bytes b .. | .arr b .. | .sub b .. | .ints b .. | .subs b .. | .opt b .. | .optInts b .. => b
 
 /-- slot of the marshal side vs slot of the unmarshal side (the unmarshal side knows lengths/windows) -/
 def Slot.agrees : Slot → Slot → Bool
@@ -330,6 +333,7 @@ def Slot.agrees : Slot → Slot → Bool
   | .ints b w e f _, .ints b' w' e' f' _ => b == b' && w == w' && e == e' && f == f'
   | .subs b f t _ _, .subs b' f' t' _ _ => b == b' && f == f' && t == t'
   | .opt b w e f _, .opt b' w' e' f' _ => b == b' && w == w' && e == e' && f == f'
+  | .optInts b w e f _ _, .optInts b' w' e' f' _ _ => b == b' && w == w' && e == e' && f == f'
   | _, _ => false
 
 def agreeAll : List Slot → List Slot → Bool
@@ -344,7 +348,8 @@ def restOnlyLast : List Slot → Bool
   | _ :: r => restOnlyLast r
 
 def Slot.field : Slot → String
-  | .int _ _ _ f | .u8 _ f | .bytes _ f _ | .arr _ f | .sub _ f _ _ | .ints _ _ _ f _ | .subs _ f _ _ _ | .opt _ _ _ f _ => f
+  | .int _ _ _ f | .u8 _ f | .bytes _ f _ | .arr _ f | .sub _ f _ _ | .ints _ _ _ f _ | .subs _ f _ _ _ | .opt _ _ _ f _
+  | .optInts _ _ _ f _ _ => f
 
 /-- wire size of the nested types whose encoding has the same length for every value (what the
     literal guards and fixed windows in front of a nested read are compared with) -/
@@ -496,6 +501,8 @@ def slotBytes (C : Codecs) (env : Env) : Slot → Bytes
     | some (.ts vs) => vs.flatMap (fun v => match C.enc typ v with | .ok (bs, _) => bs | _ => [])
     | _ => []
   | .opt _ w e f _ => match env.get f with | some (.n x) => if x = 0 then [] else intBytes w e x | _ => []
+  | .optInts _ w e f _ _ =>
+    match env.get f with | some (.ns xs) => if xs.any (· != 0) then xs.flatMap (intBytes w e) else [] | _ => []
 
 /-- bytes of a sequence of slots: the encoding a layout prescribes for the field values -/
 def layoutBytes (C : Codecs) (env : Env) (l : List Slot) : Bytes := l.flatMap (slotBytes C env)
@@ -595,6 +602,7 @@ def consistentSlots (C : Codecs) (env : Env) : List Slot → Bool
       | some (.ts vs) => vs.all (fun v => match C.enc typ v with | .ok _ => true | _ => false)
       | _ => false) && consistentSlots C env r
   | .opt _ w _ f _ :: r => (match env.get f with | some (.n x) => x < 256 ^ w | _ => false) && consistentSlots C env r
+  | .optInts _ w _ f _ _ :: r => (match env.get f with | some (.ns xs) => xs.all (· < 256 ^ w) | _ => false) && consistentSlots C env r
 
 /-- a nested value is in its type's domain: it encodes, and its own encoding decodes back to it,
     consuming exactly what was written -/
@@ -689,6 +697,8 @@ def relationsHold (C : Codecs) (env : Env) (plen : Nat) : (pad : Nat) → List U
       | some (.b bs), e => evalEnv env e == some bs.length
       | _, _ => false) && relationsHold C env plen pad r
   | pad, .readArr _ f n :: r => (match env.get f with | some (.b bs) => bs.length == n | _ => false) && relationsHold C env plen pad r
+  -- `c.F = [3]T{…}`: the fixed array has its three entries
+  | pad, .readArr3 _ f :: r => (match env.get f with | some (.ns xs) => xs.length == 3 | _ => false) && relationsHold C env plen pad r
   | pad, .readSub _ f typ _ _ _ _ :: r => (match env.get f with | some (.t v) => tupOk C typ v | _ => false) && relationsHold C env plen pad r
   | pad, .forCountInt _ _ _ f g :: r =>
     (match env.get f, env.get g with | some (.ns xs), some (.n k) => xs.length == k | _, _ => false) && relationsHold C env plen pad r
